@@ -147,6 +147,9 @@ func Check(env *core.Env, rep *core.Report) *core.Result {
 		if sc.Sched {
 			sc.NWait = rng.Intn(4)
 		}
+		for k := 0; k < sc.NR; k++ {
+			sc.Allow = append(sc.Allow, rng.Intn(2) == 0)
+		}
 		arg, _ := json.Marshal(sc)
 		b := core.RunBin(sc.Dir, nil, 60*time.Second, "", env.Self, "worker", "cancel", string(arg))
 		o := obs{key: todo[i], sc: sc, bin: b}
